@@ -31,10 +31,10 @@ def main(tier, replay=None):
     quick = tier == "quick"
     cases, stats = g6.exhaustive(tier, rng)
     n_exh = len(cases)
-    n_chain = 60 if quick else 1200
+    n_chain = 200 if quick else 1500
     for _ in range(n_chain):
         cases.append(g6.random_chain(rng, 6 if quick else 8, prep=True))
-    n_spec = 60 if quick else 1200
+    n_spec = 200 if quick else 1500
     for _ in range(n_spec):
         cases.append(g5.sanitize(g6.spec_elements(rng, 6 if quick else 9)))
     bad, logs = cc.evaluate(PID, cases, SEL, shard=100)
